@@ -132,8 +132,8 @@ def build_stream_validator(fns):
     """_validate_cas_object_from_async_read: every accepting return has compared the hash recomputed from the chunks
     with the hash being validated."""
     from mirsym import modeb
-    g = modeb.CFG(mir.find_fn(fns, r"validate_xorb_stream::_validate_cas_object_from_async_read::\{closure#0\}$"))
-    cmp_ = g.blocks_calling(r"<(merklehash::)?DataHash as PartialEq>::(ne|eq)$|as PartialEq<.*DataHash>>::(ne|eq)$")
+    g = modeb.CFG(mir.find_fn(fns, r"^_validate_cas_object_from_async_read::\{closure#0\}$"))
+    cmp_ = g.blocks_calling(r"<&?(merklehash::)?DataHash as PartialEq>::(ne|eq)$|as PartialEq<.*DataHash>>::(ne|eq)$")
     oks = [b for b in g.nodes if any(re.search(r"= (std::result::)?Result::<.*>::Ok\(", st) for st in g.fn.blocks[b][0])]
     root = g.blocks_calling(r"MerkleMemDB|merkledb|hash_node_sequence|cas_node_hash|MerkleDBHighLevelMethodsV1|::finalize$|::merge")
     if not cmp_ or not oks:
